@@ -125,8 +125,10 @@ def idm_spec(prop, tier):
     q = tier == "quick"
     if prop == "C05":
         if q:
-            return idm_runs((1, 2), ("basic", "over"), 3) + idm_runs((3,), ("basic", "over1"), 2) + idm_runs((4,), ("basic",), 2)
-        return idm_runs((1, 2, 3), ("basic", "over", "reuse"), 3, 600, 300) + idm_runs((4,), ("basic", "over1"), 2, 600, 300)
+            return (idm_runs((1,), ("basic", "over"), 4) + idm_runs((2,), ("basic", "over1"), 4) + idm_runs((2,), ("over",), 2)
+                    + idm_runs((3,), ("basic", "over1"), 2) + idm_runs((4,), ("basic",), 2))
+        return (idm_runs((1,), ("basic", "over", "reuse"), 5, 600, 300) + idm_runs((2,), ("basic", "over1"), 5, 600, 300)
+                + idm_runs((2, 3), ("basic", "over", "reuse"), 3, 600, 300) + idm_runs((4,), ("basic", "over1"), 2, 600, 300))
     if prop == "C14":
         if q:
             return idm_runs((1, 2), ("over", "reuse"), 3) + idm_runs((3,), ("over1", "reuse1"), 2)
